@@ -32,10 +32,32 @@ func registerFieldSorts(prog *ssa.Program) {
 				} else {
 					fieldSorts[key] = srt
 				}
+				if _, isSlice := stt.Field(i).Type().Underlying().(*types.Slice); isSlice {
+					fieldIsSlice[key] = true
+				}
+				// a struct held by value inside another struct: its fields live under path keys
+				// "Outer.field.inner" (instr.go FieldAddr on a heapfield)
+				var nest func(prefix string, ft types.Type, depth int)
+				nest = func(prefix string, ft types.Type, depth int) {
+					ist, ok := ft.Underlying().(*types.Struct)
+					if !ok || depth > 3 {
+						return
+					}
+					if _, named := types.Unalias(ft).(*types.Named); named {
+						nestPaths[typeName(ft)] = append(nestPaths[typeName(ft)], prefix)
+					}
+					for j := 0; j < ist.NumFields(); j++ {
+						nest(prefix+"."+ist.Field(j).Name(), ist.Field(j).Type(), depth+1)
+					}
+				}
+				nest(key, stt.Field(i).Type(), 1)
 			}
 		}
 	}
 }
+
+var fieldIsSlice = map[string]bool{}  // "Type.field" is slice-typed (its offset/length live in Type.field#off / #len)
+var nestPaths = map[string][]string{} // named struct type -> path keys under which it is held by value in other structs
 
 func (g *Gen) initGhosts(st *State) {
 	st.ghost["$panicking"] = Val{T: "false", Kind: "bool"}
@@ -122,9 +144,38 @@ func (g *Gen) verify() {
 	// vacuity guard: the precondition must be satisfiable
 	g.obls = append(g.obls, Obl{Name: "requires.cover", Kind: "cover", Pc: st.pc, Goal: "false", Cover: true})
 	if len(c.Lemmas) == 0 || c.Opt("lemmas_only") == "" {
+		g.retReach, g.cpReach = map[int][]string{}, map[int][]string{}
 		r1, _ := g.execFunc(fn, st.clone(), true, nil)
+		retReach, cpReach := g.retReach, g.cpReach
+		g.retReach, g.cpReach = nil, nil
 		if c.Inject != "" {
 			g.injective(st, env, r1)
+		}
+		// vacuity guards inside the body: an assumption made on the way (a callee's postcondition, a
+		// fresh-object fact, an invariant) that contradicts the path would make every later obligation
+		// hold trivially. Each ensures clause A ==> B must have a return at which A can hold (a clause
+		// without antecedent: a return that can be reached), and each callpre clause a call that can be
+		// reached. Not asked of the variants of a split function, where one side of an antecedent is
+		// cut away on purpose.
+		if g.splitVal == "" {
+			anyOf := func(xs []string) string {
+				if len(xs) == 0 {
+					return "false"
+				}
+				return "(or false " + strings.Join(xs, " ") + ")"
+			}
+			for i, e := range c.Ensures {
+				g.obls = append(g.obls, Obl{Name: fmt.Sprintf("ensures[%s].reachable", clauseName(e, i)), Kind: "cover", Pc: anyOf(retReach[i]), Goal: "false", Cover: true, Line: c.Line})
+			}
+			for i, cp := range c.CallPre {
+				if g.clauseBound[fmt.Sprintf("callpre#%d", i)] && len(cpReach[i]) > 0 {
+					lbl := cp[0]
+					if lbl == "" {
+						lbl = fmt.Sprint(i + 1)
+					}
+					g.obls = append(g.obls, Obl{Name: fmt.Sprintf("callpre[%s](%s).reachable", lbl, cp[1]), Kind: "cover", Pc: anyOf(cpReach[i]), Goal: "false", Cover: true, Line: c.Line})
+				}
+			}
 		}
 		// vacuity guard: a clause about a callee must bind to at least one call in the function (a
 		// clause that names no call would hold trivially; a change that removes the call is reported)
@@ -423,6 +474,7 @@ func (g *Gen) fieldOf(st *State, base, field string, env map[string]Val) Val {
 		}
 	}
 	_, isOld := env["$old"]
+	pfx := "" // path key of an enclosing by-value struct field
 	for _, fname := range strings.Split(field, ".") {
 		if t == nil {
 			panic(specErr{"spec: cannot type " + base + " in " + base + "." + field})
@@ -456,14 +508,23 @@ func (g *Gen) fieldOf(st *State, base, field string, env map[string]Val) Val {
 							}
 						}
 					}
-					if _, isPtr := ft.Underlying().(*types.Pointer); !isPtr {
-						panic(specErr{"spec: promoted field through embedded value struct not supported: " + base + "." + field})
+					if est, isStruct := ft.Underlying().(*types.Struct); isStruct {
+						// embedded by value: the fields live in arrays keyed by the path (instr.go FieldAddr on a
+						// heapfield), indexed by the enclosing object
+						pfx = key
+						t = types.NewPointer(ft)
+						stt = est
+						idx = fieldIndex(stt, fname)
+					} else {
+						if _, isPtr := ft.Underlying().(*types.Pointer); !isPtr {
+							panic(specErr{"spec: promoted field through embedded non-struct not supported: " + base + "." + field})
+						}
+						cur = Val{T: fmt.Sprintf("(select %s %s)", h, cur.T), Kind: "opaque", Ty: ft}
+						t = ft
+						pt = ft.Underlying().(*types.Pointer)
+						stt = pt.Elem().Underlying().(*types.Struct)
+						idx = fieldIndex(stt, fname)
 					}
-					cur = Val{T: fmt.Sprintf("(select %s %s)", h, cur.T), Kind: "opaque", Ty: ft}
-					t = ft
-					pt = ft.Underlying().(*types.Pointer)
-					stt = pt.Elem().Underlying().(*types.Struct)
-					idx = fieldIndex(stt, fname)
 				}
 			}
 			if idx < 0 {
@@ -476,6 +537,22 @@ func (g *Gen) fieldOf(st *State, base, field string, env map[string]Val) Val {
 				continue
 			}
 			key, ft := g.heapKey(t, idx)
+			if pfx != "" {
+				key = pfx + "." + stt.Field(idx).Name()
+				if _, ok := g.heapSort[key]; !ok {
+					g.heapSort[key] = "(Array Int Int)"
+					if isBoolType(ft) {
+						g.heapSort[key] = "(Array Int Bool)"
+					}
+				}
+				pfx = ""
+			}
+			if _, isStruct := ft.Underlying().(*types.Struct); isStruct {
+				// a struct held by value inside the object: continue with its fields under the path key
+				pfx = key
+				t = types.NewPointer(ft)
+				continue
+			}
 			h := g.heapGet(st, key)
 			if isOld {
 				if o, ok := g.entryHeap[key]; ok {
@@ -545,6 +622,9 @@ func (g *Gen) fieldOf(st *State, base, field string, env map[string]Val) Val {
 		if cur.Ty == nil {
 			cur.Ty = t
 		}
+	}
+	if pfx != "" {
+		panic(specErr{"spec: " + base + "." + field + " names a struct held by value inside an object; name one of its fields"})
 	}
 	return cur
 }
